@@ -488,6 +488,47 @@ impl<'a> QGen<'a> {
             _ => Q::Term { f: 0, t: *self.rng.pick(&[0usize, 1, 2, 3, 4, 5]), freqs: true },
         }
     }
+    /// phrase-prefix leaf with `n` plain terms (n = 1 is the SinglePrefix scorer) taken from an actual
+    /// document, the prefix being a prefix of the token that follows there: it matches some of the
+    /// documents holding the first term and not the others
+    fn pp_leaf(&mut self, n: usize) -> Q {
+        let f = 0u64;
+        for _ in 0..20 {
+            if self.docs.is_empty() { break; }
+            let d = &self.docs[self.rng.below(self.docs.len() as u64) as usize];
+            let toks = d.toks(f);
+            if toks.len() < n + 1 { continue; }
+            let start = self.rng.below((toks.len() - n) as u64) as usize;
+            let ts: Vec<(usize, usize)> = (0..n).map(|i| (i, toks[start + i])).collect();
+            let next = &self.vocab[toks[start + n]];
+            let prefix: String = match self.rng.below(4) { 0 => next.clone(), 1 | 2 => next.chars().take(1).collect(), _ => next.chars().take(2).collect() };
+            let acc: Vec<usize> = self.vocab.iter().enumerate().filter(|(_, w)| w.starts_with(&prefix)).map(|(i, _)| i).collect();
+            self.autos.push((format!("prefix({prefix})"), acc));
+            return Q::PhrasePrefix { f, ts, off: n, prefix, auto: self.autos.len() - 1 };
+        }
+        let prefix = "a".to_string();
+        let acc: Vec<usize> = self.vocab.iter().enumerate().filter(|(_, w)| w.starts_with(&prefix)).map(|(i, _)| i).collect();
+        self.autos.push((format!("prefix({prefix})"), acc));
+        Q::PhrasePrefix { f, ts: (0..n).map(|i| (i, 0usize)).collect(), off: n, prefix, auto: self.autos.len() - 1 }
+    }
+    /// boolean trees in which a phrase-prefix scorer is driven by seek / seek_danger: Must next to other
+    /// clauses, MustNot, promoted Should
+    fn pp_tree(&mut self) -> Q {
+        let n = *self.rng.pick(&[1usize, 1, 1, 2]);
+        let pp = self.pp_leaf(n);
+        let term = |g: &mut Self| Q::Term { f: 0, t: *g.rng.pick(&[0usize, 0, 3, 4, 5, 6, 7]), freqs: g.rng.chance(1, 2) };
+        let other = |g: &mut Self| if g.rng.chance(2, 3) { Q::Term { f: 0, t: g.tok(), freqs: g.rng.chance(1, 2) } } else { g.leaf() };
+        match self.rng.below(9) {
+            0 | 1 => Q::Bool(0, vec![(Occur::Must, pp), (Occur::Must, term(self))]),
+            2 => Q::Bool(0, vec![(Occur::Must, term(self)), (Occur::Must, pp)]),
+            3 => Q::Bool(0, vec![(Occur::Must, term(self)), (Occur::MustNot, pp)]),
+            4 => Q::Bool(0, vec![(Occur::Must, pp), (Occur::MustNot, other(self)), (Occur::Should, other(self))]),
+            5 => Q::Bool(2, vec![(Occur::Should, pp), (Occur::Should, term(self))]),
+            6 => { let n2 = *self.rng.pick(&[1usize, 2]); let pp2 = self.pp_leaf(n2); Q::Bool(0, vec![(Occur::Must, pp), (Occur::Must, pp2)]) }
+            7 => Q::Bool(0, vec![(Occur::Must, Q::Bool(0, vec![(Occur::Must, pp), (Occur::Must, other(self))])), (Occur::MustNot, other(self))]),
+            _ => Q::Bool(1, vec![(Occur::Must, pp), (Occur::Must, term(self)), (Occur::Should, other(self)), (Occur::Should, other(self))]),
+        }
+    }
     fn tree(&mut self, depth: usize) -> Q {
         if depth == 0 || self.rng.chance(1, 4) { return self.leaf(); }
         match self.rng.below(12) {
@@ -597,6 +638,8 @@ fn main() {
     // a segment of 200 docs holding token 2 in one doc, token 3 in exactly 128 docs, token 4 in exactly 129 docs
     corpora.push(gen_corpus(&mut rng, "block-128-129", 230, vocab_n, vec![200, 30], &[(2, 0..200, 1), (3, 0..200, 128), (4, 0..200, 129)], 0, false));
     corpora.push(gen_corpus(&mut rng, "block-128-129-deletes", 230, vocab_n, vec![30, 200], &[(2, 30..230, 1), (3, 30..230, 128), (4, 30..230, 129)], 10, false));
+    // phrase-prefix focus: the first term (token 0) sits in ~90% of the documents at varying positions
+    corpora.push(gen_corpus(&mut rng, "pp-focus", 80, vocab_n, vec![50, 30], &[(3, 0..80, 30), (4, 0..80, 45)], 10, false));
     let extra = if thorough { 10 } else { 2 };
     for k in 0..extra {
         let n = rng.range(5, if thorough { 120 } else { 70 }) as usize;
@@ -608,11 +651,25 @@ fn main() {
     }
     // big corpora: checked on the Rust side only (union windows of 4096 docs, terms in > 4096 docs)
     let mut big: Vec<Corpus> = vec![];
+    let mut witness_only: Vec<(Corpus, Vec<Q>)> = vec![];
     if thorough {
         big.push(gen_corpus(&mut rng, "big-9000", 9000, vocab_n, vec![9000], &[(2, 0..9000, 1), (3, 0..9000, 4097), (4, 0..9000, 8200), (5, 4000..4200, 129)], 0, false));
         big.push(gen_corpus(&mut rng, "big-9000-deletes", 9000, vocab_n, vec![4500, 4400, 100], &[(2, 0..9000, 1), (3, 0..4500, 4097), (4, 0..9000, 8200)], 15, false));
     } else {
         big.push(gen_corpus(&mut rng, "big-5000", 5000, vocab_n, vec![4700, 300], &[(2, 0..5000, 1), (3, 0..4700, 4097), (4, 100..400, 129)], 5, false));
+    }
+
+    // regression witness F134 of C13 (fixed): `+a +((+x +y) z)` over the doc-id sets
+    // a=[1,10000,10005] x=[1,9000,10005] y=[1,9000,50000,50001] z=[2,10000] returned an extra document
+    {
+        let n = 50_002usize;
+        let sets: [(usize, &[usize]); 4] = [(5, &[1, 10000, 10005]), (6, &[1, 9000, 10005]), (7, &[1, 9000, 50000, 50001]), (8, &[2, 10000])];
+        let mut docs: Vec<DocM> = (0..n).map(|u| DocM { uid: u as u64, alive: true, ..Default::default() }).collect();
+        for (tok, ids) in sets { for i in ids { docs[*i].text.entry(0).or_default().push(tok); } }
+        let t = |t: usize| Q::Term { f: 0, t, freqs: true };
+        let q1 = Q::Bool(0, vec![(Occur::Must, t(5)), (Occur::Must, Q::Bool(0, vec![(Occur::Should, Q::Bool(0, vec![(Occur::Must, t(6)), (Occur::Must, t(7))])), (Occur::Should, t(8))]))]);
+        let q2 = Q::Bool(0, vec![(Occur::Must, t(5)), (Occur::Must, Q::Bool(0, vec![(Occur::Should, Q::Bool(0, vec![(Occur::Should, t(6)), (Occur::Should, t(7))])), (Occur::Should, t(8))]))]);
+        witness_only.push((Corpus { name: "witness-F134".into(), docs, chunks: vec![n], merge_first_two: false }, vec![q1, q2]));
     }
 
     // ---------------- run
@@ -656,7 +713,9 @@ fn main() {
         qs.push(Q::Bool(0, vec![(Occur::Must, Q::Term { f: 0, t: 3, freqs: true }), (Occur::Must, Q::Term { f: 0, t: 4, freqs: true }), (Occur::MustNot, Q::Term { f: 0, t: 2, freqs: true })]));
         qs.push(Q::Bool(0, vec![(Occur::MustNot, Q::Term { f: 0, t: 2, freqs: true }), (Occur::MustNot, Q::Empty)]));
         qs.push(Q::Bool(2, vec![(Occur::Should, Q::All), (Occur::Should, Q::Term { f: 0, t: 3, freqs: true }), (Occur::Should, Q::Term { f: 0, t: 1, freqs: true })]));
-        let nq_here = if c.docs.len() > 150 && !thorough { 40 } else { n_queries };   // large segments cost more in Coq
+        let n_pp = if c.name == "pp-focus" { if thorough { 120 } else { 40 } } else if c.docs.len() >= 9 { if thorough { 30 } else { 8 } } else { 2 };
+        for _ in 0..n_pp { qs.push(qg.pp_tree()); }
+        let nq_here = if c.docs.len() > 150 && !thorough { 40 + n_pp } else { n_queries + n_pp };   // large segments cost more in Coq
         while qs.len() < nq_here {
             let depth = *qg.rng.pick(&[0usize, 1, 2, 2, 3, 3, 4]);
             qs.push(qg.tree(depth));
@@ -682,7 +741,8 @@ fn main() {
     }
 
     // big corpora: Rust-side spec only
-    for c in big.iter() {
+    let big_all: Vec<(&Corpus, Option<&Vec<Q>>)> = big.iter().map(|c| (c, None)).chain(witness_only.iter().map(|(c, qs)| (c, Some(qs)))).collect();
+    for (c, fixed) in big_all {
         let built = build_index(c, &vocab);
         let mut qg = QGen { rng: &mut rng, vocab: &vocab, autos: vec![], docs: &c.docs[..200.min(c.docs.len())] };
         let nq = if thorough { 150 } else { 30 };
@@ -690,7 +750,11 @@ fn main() {
         qs.push(Q::Bool(0, vec![(Occur::Should, Q::Term { f: 0, t: 3, freqs: true }), (Occur::Should, Q::Term { f: 0, t: 4, freqs: true }), (Occur::Should, Q::Term { f: 0, t: 2, freqs: false })]));
         qs.push(Q::Bool(2, vec![(Occur::Should, Q::Term { f: 0, t: 3, freqs: true }), (Occur::Should, Q::Term { f: 0, t: 4, freqs: true }), (Occur::Should, Q::Term { f: 0, t: 5, freqs: false })]));
         qs.push(Q::Bool(0, vec![(Occur::Must, Q::Term { f: 0, t: 3, freqs: true }), (Occur::Must, Q::Term { f: 0, t: 0, freqs: true }), (Occur::MustNot, Q::Term { f: 0, t: 4, freqs: true })]));
-        while qs.len() < nq { let depth = *qg.rng.pick(&[1usize, 2, 2, 3]); qs.push(qg.tree(depth)); }
+        if let Some(f) = fixed { qs = f.clone(); }
+        else {
+            for _ in 0..(if thorough { 40 } else { 10 }) { qs.push(qg.pp_tree()); }
+            while qs.len() < nq { let depth = *qg.rng.pick(&[1usize, 2, 2, 3]); qs.push(qg.tree(depth)); }
+        }
         let acc: Vec<Vec<usize>> = qg.autos.iter().map(|a| a.1.clone()).collect();
         for q in qs {
             if q.has_f32() { continue; }
@@ -771,6 +835,7 @@ fn main() {
                                o.count.clone().unwrap_or(u64::MAX), o.qcount.clone().unwrap_or(u64::MAX));
         let errors = [o.count.is_err(), o.qcount.is_err(), o.ids_ns.is_err(), o.ids_ns_scw.is_err(), o.ids_top.is_err(), o.ids_multi.is_err(), o.ids_filter.is_err()].iter().any(|e| *e);
 
+        if !meets_spec && !in_known { out.count("diag_mismatch_with_rust_mirror_of_eval", 1); }   // diagnostic only; Coq decides
         if meets_spec || !in_known {
             // spec: the ids are those of `eval` (Coq decides); and all collectors agree
             out.coq_case("spec", format!("check_spec c{ci}_acc c{ci}_corpus ({qc}) {}", cf::ns(&ids_or_empty(&o.ids_ns))), desc("DocSetCollector ids = eval"), nontrivial);
